@@ -116,9 +116,9 @@ def audit(mods, tag):
                            text=True, timeout=1800)
     out = p.stdout + p.stderr
     res = {}
-    for m in re.finditer(r"'([^']+)' depends on axioms: \[([^\]]*)\]", out, re.S):
+    for m in re.finditer(r"'(\S+?)' depends on axioms: \[([^\]]*)\]", out, re.S):
         res[m.group(1)] = [a.strip() for a in m.group(2).replace("\n", " ").split(",") if a.strip()]
-    for m in re.finditer(r"'([^']+)' does not depend on any axioms", out):
+    for m in re.finditer(r"'(\S+?)' does not depend on any axioms", out):
         res[m.group(1)] = []
     bad = {}
     for n in names:
